@@ -133,6 +133,10 @@ func init() {
 		},
 		"zzvUnwind":    func(in *Interp, a []Value) Value { in.p.unwind = int(cInt(in, a[0], "n")); return nil },
 		"zzvMapOrders": func(in *Interp, a []Value) Value { in.p.mapMode = int(cInt(in, a[0], "mode")); return nil },
+		"zzvMapOrderFixed": func(in *Interp, a []Value) Value {
+			in.p.mapFixed = a[0].(*Term).Bool()
+			return nil
+		},
 		"zzvBound": func(in *Interp, a []Value) Value {
 			in.p.run.mu.Lock()
 			in.p.run.Bounds[str(a[0])] = str(a[1])
